@@ -189,8 +189,10 @@ def r5(ctx, prog):
         rj, sj = g.strip(g.nodes[rets[0]]["val"]), g.strip(sizes[0])
         # a returned local that merely names pstart + o is expanded by canon
         pm = {d: "$%d" % k for k, d in enumerate(g.pids)}
-        for _, dd in rl.local_decl(g, lambda dd: "init" in dd):
-            if g.mentions_field(dd["init"], "slice_count"):
+        for nd_, dd in rl.local_decl(g, lambda dd: "init" in dd):
+            if g.nodes[nd_].get("inl_param"):
+                continue      # parameter temporary of an inlined helper
+            if g.mentions_field(dd["init"], "slice_count") or "->slice_count" in rl.canon(g, dd["init"]):
                 pm[dd["d"]] = "psize"
             elif "*" in dd["t"] and g.mentions_decl(dd["init"], g.param_id(0)):
                 pm[dd["d"]] = "pstart"
